@@ -650,7 +650,7 @@ def check_C01(ctx):
             ('joinreap_value', mut_first(lambda e: e['e'] == 'JoinReap', set_arg(1, lambda v: v + 1))),
             ('joinret_value', mut_first(lambda e: e['e'] == 'U_JoinRet', set_arg(2, lambda v: v + 1))),
             ('drop_publish', mut_first(lambda e: e['e'] == 'Publish', drop_at)),
-            ('publish_after_unlock', mut_first(lambda e: e['e'] == 'Publish', swap_with_next)),
+            ('publish_after_unlock', mut_pair(lambda a, b: a['e'] == 'Publish' and b['e'] == 'SpinRel' and a['w'] == b['w'], swap_with_next)),
             ('bodystart_twice', mut_first(lambda e: e['e'] == 'U_BodyStart' and e['a'][0] > 0, lambda evs, i: evs[:i + 1] + [evs[i]] + evs[i + 1:])),
             ('wrong_arg', mut_first(lambda e: e['e'] == 'U_BodyStart' and e['a'][0] > 0, set_arg(1, 1))),
         ])
@@ -819,7 +819,7 @@ def check_C04(ctx):
     std_check(ctx, [('MC_Sync', 'MC_Sync_mutex.cfg')], gen_mutex_prog, 30, 6,
               [('cas_result_flipped', mut_first(lambda e: e['e'] == 'MxCas' and e['a'][3] == 1, set_arg(3, 0))),
                ('drop_clear_bit', mut_first(ev('MxClr'), drop_at)),
-               ('push_before_clear', mut_first(ev('MxClr'), swap_with_next)),
+               ('push_before_clear', mut_pair(lambda a, b: a['e'] == 'MxClr' and b['e'] == 'QPush' and a['w'] == b['w'], swap_with_next)),
                ('enq_dropped', mut_first(ev('SqEnq'), drop_at)),
                ('double_acquire', mut_first(ev('U_LockRet'), lambda evs, i: evs[:i + 1] + [dict(evs[i], w=evs[i]['w'])] + evs[i + 1:]))],
               thorough_designs=[('MC_Sync', 'MC_Sync_mutex3.cfg')])
@@ -855,7 +855,7 @@ def check_C08(ctx):
     std_check(ctx, [('MC_Sync', 'MC_Sync_uncond.cfg')], gen_uncond_prog, 30, 6,
               [('drop_publish', mut_first(ev('UcPub'), drop_at)),
                ('resume_without_signal', mut_first(lambda e: e['e'] == 'U_UcSignalCall', drop_at)),
-               ('push_before_clear', mut_first(ev('UcClr'), swap_with_next))], small_queue=True)
+               ('push_before_clear', mut_pair(lambda a, b: a['e'] == 'UcClr' and b['e'] == 'QPush' and a['w'] == b['w'], swap_with_next))], small_queue=True)
 
 
 def check_C09(ctx):
@@ -1118,10 +1118,10 @@ def check_C12(ctx):
     std_check(ctx, [('MC_Core', 'MC_Core_small.cfg')],
               lambda rng: gen_core_prog(rng, maxb=10, flagset=(0, F_STACK, F_STACK, F_PF | F_STACK, F_ATTR, F_DETACH | F_STACK, F_PF)),
               30, 6,
-              [('stackfree_before_switch', mut_first(lambda e: e['e'] == 'CbEnter' and e['a'][0] in (2, 3), swap_with_next)),
+              [('stackfree_before_switch', mut_pair(lambda a, b: a['e'] == 'CbEnter' and a['a'][0] in (2, 3) and b['e'] == 'StackFree' and a['w'] == b['w'], swap_with_next)),
                ('stack_freed_twice', mut_first(ev('StackFree'), lambda evs, i: evs[:i + 1] + [evs[i]] + evs[i + 1:])),
                ('overlapping_stack', mut_first(lambda e: e['e'] == 'StackAlloc' and e['a'][1] > 1, lambda evs, i: set_arg(2, 1)(set_arg(3, 10 ** 6)(evs, i), i))),
-               ('descfree_before_reap', mut_first(ev('JoinReap'), swap_with_next))],
+               ('descfree_before_reap', mut_pair(lambda a, b: a['e'] == 'JoinReap' and b['e'] == 'DescFree' and a['w'] == b['w'], swap_with_next))],
               cov=('MC_Core', 'MC_Core_cov.cfg', CORE_ACTIONS), thorough_designs=[('MC_Core', 'MC_Core_big.cfg')])
 
 
